@@ -353,6 +353,12 @@ Definition table_oracle (t : list (string * list string)) : oracle :=
              end.
 Definition id_oracle : oracle := fun _ d => d.
 
+(* package.py: exclude_names = unpacked - used_as_mixins;  fragments.py: names = all - excluded, sorted *)
+Definition exclude_of (unp mix : list string) : list string :=
+  filter (fun n => mem n unp && negb (mem n mix)) (nodup string_dec unp).
+Definition start_names (names exclude : list string) : list string :=
+  isort (filter (fun n => negb (mem n exclude)) (nodup string_dec names)).
+
 (* ---- the package ---- *)
 Record fragmod := { fm_names : list string;        (* _fragments_names after generation *)
                     fm_generated : list string;    (* generation order *)
@@ -379,15 +385,13 @@ Definition generate_package (fuel : nat) (sch : aschema) (frags : list fragdef) 
       let mix_all := flat_map (fun r => st_mix (snd r)) rops in
       let unp_all := flat_map (fun r => st_unp (snd r)) rops in
       let names := map fr_name frags in
-      let exclude := filter (fun n => mem n unp_all && negb (mem n mix_all)) (nodup string_dec unp_all) in
+      let exclude := exclude_of unp_all mix_all in
       let tbl := combine names (map (fun r => sort_uniq (st_mix (snd r))) rfrags) in
-      let names0 := filter (fun n => negb (mem n exclude)) (nodup string_dec names) in
       let opsr := combine (map o_name ops) rops in
       let opsr' := map (fun x => (fst x, fst (snd x), snd (snd x))) opsr in
-      match names0 with
+      match start_names names exclude with
       | [] => Some {| pk_ops := opsr'; pk_exclude := exclude; pk_frag_table := tbl; pk_module := None |}
-      | _ =>
-          let start := isort names0 in
+      | start =>
           match work (1 + List.length names) tbl start start [] with
           | None => None
           | Some (fnames, done) =>
